@@ -1784,7 +1784,9 @@ def run(ctx, out):
 
     # the statement-level model of writer and reader (Kernels/Serial*.lean) against the real files
     from .. import serialworld
-    n_serial = ctx.n(36, 600)
+    n_serial = ctx.n(28, 600)
+    import time as _time
+    t_serial = _time.time()
     sprogs = [(t, p) for t, p in programs if t.startswith("gen:")][:n_serial]
     sprogs += [(t, p) for t, p in programs if t.startswith("trigger:") and t.endswith(":0")]
     sprogs += [(t, p) for t, p in programs if t.startswith("corpus:") and "steps" not in p]
@@ -1793,6 +1795,7 @@ def run(ctx, out):
     for tag, prog in sprogs:
         ev_serial += serialworld.check_program(prog, out, stats, tag)
     ev += ev_serial
+    stats["serial:seconds"] = round(_time.time() - t_serial, 1)
 
     # histories of writes to ONE target path: (edit*, write)+ with every option that decides what is on disk
     from .. import c04hist
